@@ -18,7 +18,7 @@ MANIFEST = dict(
     note="Modelled, not verified: Python isinstance dispatch order in the child loop; str * int.",
     technique="Lean 4 refinement proof (renderer state machine = declarative layout) by mutual structural induction + differential correspondence (exact string)",
 )
-PROP_FILES = ["HtmlVerif/Props/C06.lean", "HtmlVerif/Props/Consts.lean"]
+PROP_FILES = ["HtmlVerif/Props/C06.lean", "HtmlVerif/Props/ConstsRender.lean"]
 
 
 def valid(n) -> bool:
